@@ -240,13 +240,16 @@ Definition spec_create_time (id : Z) (su : speed_unit) (du : dist_unit) (tu : ti
     | _, _ => "FAIL not-finite"
     end.
 
-(* speed = distance / time for every positive time *)
+(* speed = distance / time for every positive time (any sign of the distance); non-positive time rejected *)
 Definition spec_create_speed (id : Z) (tu : time_unit) (du : dist_unit) (su : speed_unit)
                              (t d : float) (r : res float) : string :=
   line "S" id
     match Q_of_float t, Q_of_float d with
     | Some qt, Some qd =>
-        if Qle_bool qt 0 then "ok"   (* the property does not say what a non-positive time gives *)
+        if Qle_bool qt 0 then
+          (* the analogue of create_time's rejection (builders.rs returns SpeedFromTimeAndDistanceError; the
+             model proves it, Props/C09.v c09_create_speed_rejects): a non-positive time is not turned into a speed *)
+          verdict [("rejects-nonpositive-time", match r with Err _ => true | _ => false end)]
         else
           match r with
           | Ok v => match Q_of_float v with
